@@ -401,7 +401,11 @@ func (e *Engine) callMods(f *ssa.Function, call ssa.CallInstruction, m *ModSet, 
 		case "copy":
 			if st, ok := c.Args[0].Type().Underlying().(*types.Slice); ok {
 				n, _ := e.elemArr(st.Elem())
-				m.add(n, modOld)
+				lvl := modOld
+				if _, fresh := c.Args[0].(*ssa.MakeSlice); fresh {
+					lvl = modFresh // copying into a slice made by this very function
+				}
+				m.add(n, lvl)
 			}
 		case "delete":
 			mt := c.Args[0].Type().Underlying().(*types.Map)
@@ -520,7 +524,11 @@ func (e *Engine) libMods(callee *ssa.Function, c *ssa.CallCommon, m *ModSet) {
 		m.add("SC:src", modOld)
 	case name == "sort.Strings" || name == "sort.Ints":
 		n, _ := e.elemArr(c.Args[0].Type().Underlying().(*types.Slice).Elem())
-		m.add(n, modOld)
+		lvl := modOld
+		if _, fresh := c.Args[0].(*ssa.MakeSlice); fresh {
+			lvl = modFresh // sorting a slice made by this very function
+		}
+		m.add(n, lvl)
 	case name == "sort.Sort" || name == "sort.Stable":
 		// sorts the named slice in place through its Swap method
 		arg := c.Args[0]
